@@ -93,6 +93,48 @@ def install():
 
     core.make_counterexample_message = make_msg
 
+    # 6. CrossHair 0.0.110 models a non-MULTILINE `$` as end-of-string; in CPython it also matches just before one
+    #    trailing newline.  Rewrite every such `$` in the parsed pattern into the equivalent lookahead (?=\n?\Z),
+    #    which the model handles (found when a seeded change - alphabet check via re.match(... + "$") - was "confirmed").
+    from crosshair.libimpl import relib as R
+    import re as _re
+    orig_parse = R.parse
+    P = R.re_parser
+
+    def fix_dollar(sub):
+        data = sub.data if hasattr(sub, "data") else sub
+        for i, item in enumerate(data):
+            op, arg = item
+            if op is P.AT and arg is P.AT_END:
+                data[i] = orig_parse("(?=\\n?\\Z)", 0).data[0]
+            elif op is P.SUBPATTERN:
+                fix_dollar(arg[3])
+            elif op is P.BRANCH:
+                for alt in arg[1]:
+                    fix_dollar(alt)
+            elif op in (P.MAX_REPEAT, P.MIN_REPEAT) or op is getattr(P, "POSSESSIVE_REPEAT", None):
+                fix_dollar(arg[2])
+            elif op in (P.ASSERT, P.ASSERT_NOT):
+                fix_dollar(arg[1])
+            elif op is getattr(P, "ATOMIC_GROUP", None):
+                fix_dollar(arg)
+            elif op is getattr(P, "GROUPREF_EXISTS", None):
+                fix_dollar(arg[1])
+                if arg[2] is not None:
+                    fix_dollar(arg[2])
+
+    def parse(pattern, flags=0, *a, **k):
+        parsed = orig_parse(pattern, flags, *a, **k)
+        try:
+            fl = parsed.state.flags | flags
+        except AttributeError:
+            fl = flags
+        if not (fl & _re.MULTILINE):
+            fix_dollar(parsed)
+        return parsed
+
+    R.parse = parse
+
     # 5. model of hash randomisation (inactive unless a C17 harness switches it on)
     import hash_order
     hash_order.install()
